@@ -14,6 +14,7 @@ package main
 // environmental reasons (a child did not come up, no leader in time); the check retries or skips.
 
 import (
+	"encoding/json"
 	"flag"
 	"fmt"
 	"math/rand"
@@ -140,6 +141,15 @@ func (s *csim) restart(victim int, env ...string) (*vchild, string, error) {
 	ln := k.waitLine(90*time.Second, "READY ", "FAILED ", "DIED ")
 	switch {
 	case strings.HasPrefix(ln, "READY "):
+		// A replica that restarted from a raft snapshot without voters has no configuration: it
+		// can never campaign or be counted again.  That is a failed restart, observed from the
+		// node's own status projection rather than from a wall-clock time-out.
+		var st nodeStatus
+		if json.Unmarshal([]byte(ln[6:]), &st) == nil && st.SnapIndex > 0 && st.SnapVoters == 0 {
+			s.notes = append(s.notes, fmt.Sprintf("FAILED raft snapshot at index %d has an empty voter set", st.SnapIndex))
+			k.kill9()
+			return k, "failed", nil
+		}
 		return k, "ready", nil
 	case strings.HasPrefix(ln, "FAILED "):
 		s.notes = append(s.notes, ln)
@@ -147,6 +157,27 @@ func (s *csim) restart(victim int, env ...string) (*vchild, string, error) {
 		return k, "failed", nil
 	case strings.HasPrefix(ln, "DIED "):
 		return k, ln, nil
+	case ln == "EXITED":
+		// The process went away while starting on its existing directory.  Unless the log shows
+		// that it lost one of its ports to another process, that is a failed restart (a panic in
+		// the replay is not an environmental problem).
+		k.kill9()
+		tail := s.cl.logTail(victim)
+		if strings.Contains(tail, "address already in use") || strings.Contains(tail, "failed to listen") {
+			return k, "", envErr(fmt.Sprintf("restarted node %d lost a port", victim))
+		}
+		why := "process exited during start-up"
+		for _, l := range strings.Split(tail, "\n") {
+			if strings.Contains(l, "panic") || strings.Contains(l, "fatal") {
+				if len(l) > 160 {
+					l = l[:160]
+				}
+				why = l
+				break
+			}
+		}
+		s.notes = append(s.notes, "FAILED "+why)
+		return k, "failed", nil
 	}
 	k.kill9()
 	return k, "", envErr(fmt.Sprintf("restarted node %d said %q", victim, ln))
@@ -208,7 +239,9 @@ func crashsim(args []string) error {
 	seed := fs.Int64("seed", 1, "")
 	n := fs.Int("n", 1, "replicas")
 	engine := fs.String("engine", "mem", "mem | pebble")
-	kind := fs.String("kind", "point", "point | restart | install | random | hold | term")
+	kind := fs.String("kind", "point", "point | restart | install | random | hold | term | chain")
+	pre := fs.Int("pre", 12, "point: operations before the hook is armed")
+	chain := fs.String("chain", "", "chain: comma-separated hooks (or kill), one per successive incarnation of the victim")
 	point := fs.String("point", "persist.wal", "hook name")
 	kHit := fs.Int("k", 1, "k-th hit")
 	victimRole := fs.String("victim", "leader", "leader | follower | any")
@@ -221,17 +254,28 @@ func crashsim(args []string) error {
 	waitAck := fs.Bool("waitack", true, "hold: wait for the answer of the held operation before the kill")
 	snapCount := fs.Int("snapcount", 8, "")
 	walSeg := fs.Int("walseg", 2048, "")
+	optFsync := fs.Bool("optfsync", false, "namespace option optimized_fsync (WAL flushed, not fsynced, on most saves)")
+	think := fs.Int("think", 0, "mean client think time in ms (0 = none); slows the log down so that snapshots do not overlap")
+	delay := fs.Int("delay", 0, "ms the dying goroutine blocks at the hook before the kill (concurrent goroutines finish their step)")
+	keepBackup := fs.Int("keepbackup", 2, "checkpoints kept (1 is legal for checkpoints; snapshot files then keep 10)")
 	fs.Parse(args)
 
-	extra := []string{"-snapcount", fmt.Sprint(*snapCount), "-snapcatchup", "3", "-keepwal", "2", "-keepbackup", "2",
+	extra := []string{"-snapcount", fmt.Sprint(*snapCount), "-snapcatchup", "3", "-keepwal", "2", "-keepbackup", fmt.Sprint(*keepBackup),
 		"-walseg", fmt.Sprint(*walSeg)}
+	if *optFsync {
+		extra = append(extra, "-optfsync")
+	}
 	cl, err := newCluster(*vnode, *root, *n, *engine, extra)
 	if err != nil {
 		return err
 	}
 	defer cl.killAll()
+	if *delay > 0 {
+		cl.env = append(cl.env, fmt.Sprintf("VERIF_CRASH_DELAY_MS=%d", *delay))
+	}
 	s := &csim{cl: cl, h: &history{}, rng: rand.New(rand.NewSource(*seed)), solo: *n == 1}
 	s.w = newWorkload(cl, s.h, *seed, *clients)
+	s.w.think = *think
 	s.h.add(trace.M{"ev": "reset", "weak": *weak && s.solo, "st": emptyStore()})
 
 	status := "ok"
@@ -255,6 +299,10 @@ func crashsim(args []string) error {
 			return fail(envErr("no leader found"))
 		}
 		k := cl.kids[victim]
+		if *pre > 0 {
+			s.w.run(*pre)
+			s.w.wait()
+		}
 		k.send(fmt.Sprintf("crash %s %d", *point, *kHit))
 		if ln := k.waitLine(5*time.Second, "ARMED "); !strings.HasPrefix(ln, "ARMED ") {
 			return fail(envErr("arming failed: " + ln))
@@ -369,6 +417,95 @@ func crashsim(args []string) error {
 			}
 		}
 
+	case "chain":
+		// several crashes in a row, one per incarnation: the first hook is armed at run time, the
+		// following ones through the environment of the restarted process
+		victim := s.pickVictim(*victimRole)
+		if victim == 0 {
+			return fail(envErr("no leader found"))
+		}
+		pts := strings.Split(*chain, ",")
+		k := cl.kids[victim]
+		s.w.run(*pre)
+		s.w.wait()
+		for j, p := range pts {
+			if j > 0 {
+				var res string
+				var err error
+				env := []string{}
+				if p != "kill" {
+					env = append(env, "VERIF_CRASH="+p+":1")
+				}
+				k, res, err = s.restart(victim, env...)
+				if err != nil {
+					return fail(err)
+				}
+				if res == "failed" {
+					s.h.add(trace.M{"ev": "restarted", "n": victim, "ok": false})
+					restartOK = false
+					break
+				}
+				if strings.HasPrefix(res, "DIED ") {
+					pp, kk := parseDied(res)
+					k.kill9()
+					s.recordDied(victim, pp, kk, "crash")
+					continue
+				}
+				s.h.add(trace.M{"ev": "restarted", "n": victim, "ok": true})
+				var all []int
+				for i := 1; i <= cl.n; i++ {
+					all = append(all, i)
+				}
+				s.w.setTargets(all) // the hook may fire at once (snapshot right after the election): no barrier here
+			} else if p != "kill" {
+				k.send(fmt.Sprintf("crash %s 1", p))
+				if ln := k.waitLine(5*time.Second, "ARMED "); !strings.HasPrefix(ln, "ARMED ") {
+					return fail(envErr("arming failed: " + ln))
+				}
+			}
+			if p == "kill" {
+				s.w.run(4)
+				s.w.wait()
+				k.kill9()
+				s.w.setTargets(s.survivors(victim))
+				s.recordDied(victim, "none", 0, "kill")
+				continue
+			}
+			s.w.run(*ops)
+			var diedLn string
+			for deadline := time.Now().Add(60 * time.Second); time.Now().Before(deadline); {
+				ln := k.waitLine(150*time.Millisecond, "DIED ")
+				if strings.HasPrefix(ln, "DIED ") || ln == "EXITED" {
+					diedLn = ln
+					break
+				}
+				if s.w.issuedOps() >= *ops {
+					ln = k.waitLine(1500*time.Millisecond, "DIED ")
+					if strings.HasPrefix(ln, "DIED ") {
+						diedLn = ln
+					}
+					break
+				}
+			}
+			k.kill9()
+			s.w.setTargets(s.survivors(victim))
+			if strings.HasPrefix(diedLn, "DIED ") {
+				s.trig = true
+				pp, kk := parseDied(diedLn)
+				s.recordDied(victim, pp, kk, "crash")
+			} else {
+				s.recordDied(victim, "none", 0, "kill")
+			}
+			s.w.stopNow()
+		}
+		if restartOK {
+			ok, err := s.cleanRestartAndCheck(victim, *phase2)
+			if err != nil {
+				return fail(err)
+			}
+			restartOK = ok
+		}
+
 	case "random", "term":
 		for c := 0; c < *cycles && restartOK; c++ {
 			var all []int
@@ -441,13 +578,13 @@ func crashsim(args []string) error {
 				s.h.ok(id, n)
 				answered = true
 			} else {
-				s.h.fail(id)
+				s.h.fail(id, r.err)
 			}
 		}
 		k.kill9()
 		if !*waitAck {
-			<-ch
-			s.h.fail(id)
+			rr := <-ch
+			s.h.fail(id, rr.err)
 		}
 		conn.close()
 		s.notes = append(s.notes, fmt.Sprintf("held=%v answered_while_held=%v", s.trig, answered))
@@ -465,7 +602,7 @@ func crashsim(args []string) error {
 	if !restartOK {
 		status = "restart-failed"
 	}
-	if err := s.h.write(*out); err != nil {
+	if err := s.h.write(*out, cl.sentEvents()...); err != nil {
 		return err
 	}
 	summary(map[string]interface{}{"status": status, "kind": *kind, "point": *point, "k": *kHit, "n": *n, "engine": *engine,
